@@ -70,6 +70,7 @@ fn do_case(kvs: &[Kv], geom: Geom, st: &mut Stats, rep: &Reporter) {
     st.transitions += kvs.len() as u64 + 1;
     match run_case(kvs, geom) {
         Ok(o) => {
+            crate::ev::obs(((o.nodes as u64) << 32) | ((o.trie as u64) << 8) | (o.evictions.min(255)));
             if o.evictions == 0 && o.rejections == 0 {
                 st.count(&format!("eviction_free_builds[{}x{}]", geom.0, geom.1), 1);
                 if o.nodes < o.trie {
@@ -141,6 +142,32 @@ pub fn plan(tier: Tier) -> Plan {
                             let o = observe(&kvs, (10_000, 2)).ok();
                             json!({"keys": keys.iter().map(|k| key_str(k)).collect::<Vec<_>>(), "nodes": o.as_ref().map(|o| o.nodes), "trie": o.as_ref().map(|o| o.trie), "minimal": o.as_ref().map(|o| o.minimal_expected)})
                         });
+                    }
+                }
+            }));
+        }
+    }
+    // maps with every assignment from {0,1,2}: subsets of U_abc2 with <= 5
+    // keys (thorough <= 6) under a cache that never evicts for such inputs
+    {
+        let u = u_abc2();
+        let maxk = if thorough { 6 } else { 5 };
+        let mut masks = vec![];
+        for_each_mask_upto(u.keys.len(), maxk, &mut |m| masks.push(m));
+        let chunk = (masks.len() + 127) / 128;
+        for part in masks.chunks(chunk.max(1)) {
+            let part = part.to_vec();
+            let u = u.clone();
+            p.units.push(unit("U_abc2-all-value-assignments-{0,1,2}-cache-100x2", format!("abc2 assignments {} masks from {}", part.len(), part[0]), move |st, rep| {
+                for &mask in &part {
+                    if rep.stopped() { return; }
+                    let keys = select(&u.keys, mask);
+                    let n = keys.len();
+                    for code in 0..3usize.pow(n as u32) {
+                        let mut c = code;
+                        let kvs: Vec<Kv> = keys.iter().map(|k| { let v = (c % 3) as u64; c /= 3; (k.clone(), v) }).collect();
+                        do_case(&kvs, (100, 2), st, rep);
+                        do_case(&kvs, (2, 2), st, rep);
                     }
                 }
             }));
